@@ -6,9 +6,12 @@
   `Gen.TrapGrad.*` (regenerated from sigpy/mri/rf/trajgrad.py on every run), so a changed ceiling, test,
   flat length or rescale changes the definitions these proofs are checked against.
   They hold for ALL positive real `area gmax dgdt dt` (no range restriction, any consistent units).
-  Not carried by a theorem: IEEE rounding of the float evaluation (in particular at exact ceiling ties),
-  and the numpy primitives (`linspace`, `concatenate`, `ones`, `sum`); these are validated by the
-  correspondence check (model over `Rat` vs the real functions).
+  `Props/C20Rat.lean` proves that the `Rat` instantiation the driver executes is the cast-free image of this
+  ℝ instantiation (`rat_real_agree`, `trapGrad_cast`, `minTrapGrad_cast`) and transfers the theorems to it
+  (`trap_meets_limits_rat`, …); `Props/C20Spokes.lean` treats the translator-generated `spokes_grad` assembly.
+  Not carried by a theorem: IEEE rounding of the float evaluation (`ceil_perturb_iff` in C20Rat says exactly when
+  it can change a ceiling; the correspondence then follows the float code through the recorded double and
+  compares exactly), and the numpy primitives (`linspace`, `concatenate`, `ones`, `sum`).
 -/
 import SigpyVerif.Lemmas.C20
 namespace SigpyVerif.C20
@@ -74,17 +77,26 @@ theorem absG_of_pos {x : ℝ} (hx : 0 < x) : absG x = x := by
 theorem le_natCeil_mul (x c y : ℝ) (hc : 0 < c) (e : y * c = x) : x ≤ (⌈y⌉₊ : ℝ) * c := by
   rw [← e]; exact mul_le_mul_of_nonneg_right (Nat.le_ceil _) hc.le
 
+/-- the first ramp length in normal form, whatever algebraically equal way the source writes the quotient
+(`gmax / dgdt / dt`, `gmax / (dgdt * dt)`, …) -/
+theorem ramppts0_eq (hs : 0 < dgdt) (hdt : 0 < dt) :
+    trapRamppts0 opsR gmax dgdt dt = ⌈gmax / (dgdt * dt)⌉₊ := by
+  have hs' := hs.ne'
+  have hdt' := hdt.ne'
+  have key : ∀ x : ℝ, x = gmax / (dgdt * dt) → ⌈x⌉₊ = ⌈gmax / (dgdt * dt)⌉₊ := fun x h => by rw [h]
+  exact key _ (by first | rfl | field_simp)
+
 /-- the first `ramppts = ceil(gmax/dgdt/dt)` -/
 theorem ramppts0_spec (hg : 0 < gmax) (hs : 0 < dgdt) (hdt : 0 < dt) :
     1 ≤ trapRamppts0 opsR gmax dgdt dt ∧
     gmax ≤ (trapRamppts0 opsR gmax dgdt dt : ℝ) * (dgdt * dt) ∧
     (trapRamppts0 opsR gmax dgdt dt : ℝ) * (dgdt * dt) < gmax + dgdt * dt := by
-  have hpos : 0 < gmax / dgdt / dt := by positivity
   have hd : 0 < dgdt * dt := by positivity
-  simp only [trapRamppts0, opsR]
-  have e : gmax / dgdt / dt * (dgdt * dt) = gmax := by field_simp
+  have hpos : 0 < gmax / (dgdt * dt) := by positivity
+  rw [ramppts0_eq hs hdt]
+  have e : gmax / (dgdt * dt) * (dgdt * dt) = gmax := by field_simp
   refine ⟨Nat.ceil_pos.mpr hpos, ?_, ?_⟩
-  · calc gmax = gmax / dgdt / dt * (dgdt * dt) := e.symm
+  · calc gmax = gmax / (dgdt * dt) * (dgdt * dt) := e.symm
       _ ≤ _ := mul_le_mul_of_nonneg_right (Nat.le_ceil _) hd.le
   · have := mul_lt_mul_of_pos_right (Nat.ceil_lt_add_one hpos.le) hd
     rwa [add_mul, e, one_mul] at this
@@ -96,7 +108,7 @@ theorem trap_triangle (ha : 0 < area)
       ⟨⌈Real.sqrt (area * dgdt) / dgdt / dt⌉₊, 0,
         area / ((pulse (α := ℝ) ⌈Real.sqrt (area * dgdt) / dgdt / dt⌉₊ 0).sum * dt)⟩ := by
   unfold trapGrad
-  simp only [trapIsTriangle, absG_of_pos ha, h, decide_true, if_true]
+  simp only [trapIsTriangle, opsR_lt, absG_of_pos ha, h, decide_true, if_true]
   simp only [trapTriRamppts, trapScale, absG_of_pos ha, opsR]
 
 /-- The design `trap_grad` returns in the trapezoid regime. -/
@@ -108,7 +120,7 @@ theorem trap_trapezoid (ha : 0 < area)
         area / ((pulse (α := ℝ) (trapRamppts0 opsR gmax dgdt dt)
           (trapNflat opsR area (trapTriareamax (trapRamppts0 opsR gmax dgdt dt) gmax dt) gmax dt)).sum * dt)⟩ := by
   unfold trapGrad
-  simp only [trapIsTriangle, absG_of_pos ha, h, decide_false, trapScale]
+  simp only [trapIsTriangle, opsR_lt, absG_of_pos ha, h, decide_false, trapScale]
   rfl
 
 /-- `ramppts_pos`: the ramp length is at least one in both regimes (no division by zero in `k / ramppts`). -/
@@ -286,7 +298,7 @@ theorem min_trap_meets_limits (ha : 0 < area) (hg : 0 < gmax) (hs : 0 < dgdt) (h
     (d.wave.head? = some 0 ∧ d.wave.getLast? = some 0) ∧ (∀ x ∈ d.wave, |x| ≤ gmax) ∧
     List.IsChain (fun x y : ℝ => |y - x| / dt ≤ dgdt) d.wave := by
   unfold minTrapGrad at hd
-  simp only [minOverGmax] at hd
+  simp only [minOverGmax, opsR_lt] at hd
   split_ifs at hd with h0 hov h2
   · -- capped at gmax
     obtain rfl := Option.some.inj hd
